@@ -51,6 +51,9 @@ def make_decoders(cfg: dict, rng: random.Random):
         common["exclude_manufacturer_code"] = mfrs
     elif cfg["mfrMode"] == "include":
         common["include_manufacturer_code"] = mfrs
+    elif cfg["mfrMode"] == "both":
+        common["exclude_manufacturer_code"] = mfrs
+        common["include_manufacturer_code"] = [spell(MFR[m], rng) for m in sorted(cfg["mfrsIn"])]
     kw = dict(common)
     if cfg["mode"] == "exclude":
         kw["exclude_pgns"] = entries
@@ -216,7 +219,7 @@ def replay(behaviours, rng: random.Random):
         for beh in behaviours:
             cfgm = beh[1][1]["cfg"] if len(beh) > 1 else beh[0][1]["cfg"]
             cfg = {"mode": cfgm["mode"], "nums": sorted(cfgm["nums"]), "ids": sorted(cfgm["ids"]), "mfrMode": cfgm["mfrMode"],
-                   "mfrs": sorted(cfgm["mfrs"]), "netmap": cfgm["netmap"]}
+                   "mfrs": sorted(cfgm["mfrs"]), "mfrsIn": sorted(cfgm.get("mfrsIn", [])), "netmap": cfgm["netmap"]}
             Clock.offset = _dt.timedelta(0)
             F, U, G, entries = make_decoders(cfg, rng)
             window = True
